@@ -86,6 +86,12 @@ type Outcomes struct {
 	Density  int             `json:"density"` // percent of paths that get a non-Value kind from Kinds
 	Kinds    []Kind          `json:"kinds"`
 	Explicit map[string]Kind `json:"explicit,omitempty"`
+	// ErrorForms: the error values of failing outcomes take several Go forms
+	// (a plain error, or a gqlerrors.FormattedError carrying a path of its own -
+	// say the forwarded error entry of an upstream service), chosen by the
+	// response path. An already located *gqlerrors.Error is not used: passing its
+	// path through is the reference implementation's documented behaviour. The message is the same in every form.
+	ErrorForms bool `json:"error_forms,omitempty"`
 }
 
 func (o *Outcomes) At(path string) Kind {
